@@ -11,6 +11,9 @@ pub(crate) use connection::HostConnectionConfig;
 pub(crate) use connection::open_connection;
 #[cfg(scylla_verif)]
 pub(crate) use connection::verif_connection_config;
+#[cfg(scylla_verif)]
+#[doc(hidden)]
+pub use connection::verif_hooks as verif_connection_hooks;
 
 pub(crate) use connection::{Connection, ConnectionConfig, TcpSocketOptions, VerifiedKeyspaceName};
 
